@@ -118,6 +118,10 @@ class Evaluator(abc.ABC):
         self.loop = None  # Event loop for asyncio.
         self._start_dumping = False
         self._columns_dumped = None  # columns names dumped in csv file
+        # The two attributes above describe the csv file at ``_path_dumped``, the state of the
+        # other csv files this evaluator dumped jobs to is kept in ``_dump_states``.
+        self._path_dumped = None
+        self._dump_states = {}
         self.num_objective = None  # record if multi-objective are recorded
         self._stopper = None  # stopper object
         self.search = None  # search instance
@@ -614,6 +618,15 @@ class Evaluator(abc.ABC):
         if not os.path.exists(log_dir):
             raise FileNotFoundError(f"No such directory: {log_dir}")
 
+        # The state of the dumping (header already written, columns) is kept per file: the
+        # evaluator can be used by several searches, each one with its own directory.
+        path = os.path.join(log_dir, filename)
+        if path != self._path_dumped:
+            if self._path_dumped is not None:
+                self._dump_states[self._path_dumped] = (self._start_dumping, self._columns_dumped)
+            self._start_dumping, self._columns_dumped = self._dump_states.pop(path, (False, None))
+            self._path_dumped = path
+
         if self._job_class is HPOJob:
             self._dump_jobs_done_to_csv_as_hpo_format(log_dir, filename, flush)
         else:
@@ -737,6 +750,17 @@ class Evaluator(abc.ABC):
             if self._columns_dumped is not None:
                 self._write_rows_to_csv(os.path.join(log_dir, filename), resultsList)
                 self.jobs_done = []
+
+    def _forget_dump_state(self, path: str):
+        """Forget that jobs were already dumped to the CSV file at ``path``.
+
+        The next dump to this file starts it again with the header (e.g., the file was renamed and
+        a new search writes its results at this path).
+        """
+        if path == self._path_dumped:
+            self._start_dumping = False
+            self._columns_dumped = None
+        self._dump_states.pop(path, None)
 
     def _write_rows_to_csv(self, path: str, rows: List[dict]):
         """Write rows to the CSV file at ``path`` for the columns ``self._columns_dumped``.
